@@ -1,14 +1,16 @@
 """C14 — definition-driven, per-game and protocol-level queries agree."""
 import json, os, random
 import vlib, netcases
-from props import netprops
+from props import netprops, cliplan
 
 LEVEL = "proof"
 RULE = ("every Valve-protocol entry of the definitions table (translated from the source on this run) x port given / omitted x server "
         "behaviours generated for that game's engine and gathering settings (valid replies with the main, dedicated and foreign app ids, "
         "0-3 challenge rounds, split replies; one structured mutation; silence): the generic entry point, the dedicated module and the "
         "protocol-level query with the definition's parameters run under the same scripted server; destination port, request bytes in order "
-        "and result (through game::Response::new_from_valve_response) must be equal, and equal to the model's. Non-trivial = a delivery received.")
+        "and result (through game::Response::new_from_valve_response) must be equal, and equal to the model's. The command-line tool as a fourth "
+        "caller: for every game x port given / omitted x timeout / extra settings the plan the real binary prints (hook) = the model of main's; "
+        "oracle: the definition of that id, the caller's values unchanged. Non-trivial = a delivery received / a plan printed.")
 ASSUMPTIONS = ["modules use the default timeout settings, so the three paths are compared at retry count 0",
                "non-Valve games of the table are covered by the table theorems and are added to the differential as their families land"]
 TRUSTED = ["translator tools/xlate.py (definitions.rs, game_query_mod! invocations, hand-written modules' default ports), validated by this differential"]
@@ -45,7 +47,10 @@ def random_extra(rnd):
 
 def run(rep, tier, seed, replay=None):
     if replay is not None:
-        vlib.correspond(rep, replay, oracle=netprops.crash_oracle, trivial=netprops.trivial, tag="c14")
+        cliplan.run(rep, [l for l in replay if cliplan.is_plan(l)], count="cli-query")
+        replay = [l for l in replay if not cliplan.is_plan(l)]
+        if replay:
+            vlib.correspond(rep, replay, oracle=netprops.crash_oracle, trivial=netprops.trivial, tag="c14")
         return
     rnd = random.Random(seed)
     tables = json.load(open(os.path.join(vlib.WORK, "games.json")))
@@ -278,3 +283,8 @@ def run(rep, tier, seed, replay=None):
     rep.extra_cov["games_compared"] = len({g["id"] for g in groups + any_groups})
     rep.extra_cov["programs"] = len({g["id"] for g in groups + any_groups})
     rep.extra_cov["disagreements_checked"] = len(groups) + len(any_groups)
+    # the command-line tool as a fourth caller: for every game of the table the query it issues (plan hook of the real binary
+    # against the model of main: Proto/CliPlan.lean) is the generic query of the looked-up definition with the caller's port,
+    # timeouts, retries and extra settings
+    res = cliplan.run(rep, cliplan.gen_c14(seed + 14, tier), count="cli-query")
+    rep.extra_cov["cli_invocations"] = len(res)
